@@ -444,11 +444,29 @@ def wcnf_method(interp, ref, o: HWcnf, name, args, kwargs, node):
             interp.log("wcnf.soft", node, obj=ref, item=it, weight=w)
         return Const(None)
     if name == "extend":
+        ws = args[1] if len(args) > 1 else kwargs.get("weights")
+        w = None
+        if ws is not None and not (isinstance(ws, Const) and ws.value is None):
+            # soft clauses: one weight per clause; read only when all weights are one and the same constant
+            wsegs = interp.segments(ws, node)
+            wvals = {desc(sg[1]) if sg[0] == "one" else (desc(sg[4]) if sg[0] == "each" else None) for sg in wsegs}
+            if len(wvals) != 1 or None in wvals or not (isinstance(next(iter(wvals)), tuple) and next(iter(wvals))[:1] == ("c",)):
+                interp.err(node, "WCNF.extend with weights the analysis cannot read as one constant per clause")
+            w = next(iter(wvals))
         for s in interp.segments(args[0], node):
             if s[0] == "one":
-                o.hard.append(clause_item(interp, s[1], node))
+                it = clause_item(interp, s[1], node)
             elif s[0] == "each":
-                o.hard.append(("each", s[1], s[2], s[3], clause_item(interp, s[4], node)))
+                it = ("each", s[1], s[2], s[3], clause_item(interp, s[4], node) if w is None else ("w", clause_item(interp, s[4], node), w))
+            else:
+                interp.err(node, "WCNF.extend with a sequence of unknown members")
+            if w is None:
+                o.hard.append(it)
+                interp.log("wcnf.hard", node, obj=ref, item=it)
+            else:
+                it = it if s[0] == "each" else ("w", it, w)
+                o.soft.append(it)
+                interp.log("wcnf.soft", node, obj=ref, item=it, weight=w)
         return Const(None)
     if name == "copy":
         r = interp.alloc(HWcnf(o.hard, o.soft))
@@ -651,6 +669,30 @@ def _enumerate(interp, args, kwargs, node):
             pos = F.lin_add(F.lin_term(("pos", b, ("members", s[1]))), F.lin_add(sl.lin, F.lin_const(n)) if sl else F.lin_const(n))
             out.append(("each", b, ("members", s[1]), PTRUE, TupleV((LinV(pos), ElemV(b, "plain")))))
     return interp.alloc(HList(out))
+
+
+def _chain_of(interp, parts, node, name):
+    out = []
+    for part in parts:
+        out.extend(interp.segments(part, node))
+    return interp.alloc(HList(out))
+
+
+@ext("itertools.chain.from_iterable")
+def _chain_from_iterable(interp, args, kwargs, node):
+    """chain.from_iterable(xss) for a sequence with known members: their elements one after the other."""
+    segs = interp.segments(args[0], node)
+    if all(sg[0] == "one" for sg in segs):
+        return _chain_of(interp, [sg[1] for sg in segs], node, "chain.from_iterable")
+    interp.log("call.unknown", node, func=Sym(("ext", "itertools.chain.from_iterable")), args=tuple(args), kwargs=dict(kwargs))
+    return Sym(("call", "itertools.chain.from_iterable", tuple(desc(a) for a in args), interp.fresh_id("c")))
+
+
+@ext("itertools.chain")
+def _chain(interp, args, kwargs, node):
+    if any(isinstance(a, tuple) for a in args):
+        interp.err(node, "itertools.chain over a symbolic argument list")
+    return _chain_of(interp, list(args), node, "chain")
 
 
 @ext("itertools.count")
@@ -1532,9 +1574,21 @@ def list_method(interp, ref, o: HList, name, args, kwargs, node):
             idx = args[0].value if args and isinstance(args[0], Const) else -1
             try:
                 return o.segs.pop(idx)[1]
-            except Exception:
-                pass
-        return Sym(("pop", interp.list_desc(o)))
+            except IndexError:
+                from .absint import RaiseSig
+                raise RaiseSig(ExcV("IndexError", ("pop", desc(args[0]) if args else None)), node)
+        if args and len(o.segs) == 1 and o.segs[0][0] == "each" and o.segs[0][3] == PTRUE and o.segs[0][2][0] == "members" and interp.as_lin(args[0]) is not None and not o.is_set:
+            # xs.pop(i) of a sequence that enumerates a family: the element at position i; what stays are the elements
+            # before and after it
+            _, b, fam, g, val = o.segs[0]
+            got = interp.list_index(ref, o, args[0], node)
+            i_lin = interp.as_lin(args[0]).lin
+            b1, b2 = interp.fresh_var("p"), interp.fresh_var("p")
+            lo = ("slice", fam[1], None, ("lin", i_lin))
+            hi = ("slice", fam[1], ("lin", F.lin_add(i_lin, F.lin_const(1))), None)
+            o.segs = [("each", b1, ("members", lo), PTRUE, interp.inst(val, {b: b1})), ("each", b2, ("members", hi), PTRUE, interp.inst(val, {b: b2}))]
+            return got
+        interp.err(node, "pop from a sequence the analysis has no positions for")
     if name in ("remove", "discard"):
         d = desc(args[0])
         for i, s in enumerate(o.segs):
@@ -1786,7 +1840,7 @@ def opaque_method(interp, ref, o: HOpaque, name, args, kwargs, node):
             return ElemV(("id", desc(args[0]) if args else ("fresh", interp.fresh_id("id"))), "lit")
     if t == "Manager":
         if name == "dict":
-            r = interp.alloc(HDict())
+            r = interp.alloc(HDict(sym=("written by the worker processes",)))  # what it holds is not only what this process stores
             interp.deref(r).shared = True
             interp.log("mp.dict", node, obj=r)
             return r
